@@ -90,7 +90,9 @@ func c03Enumerate(tier string, yield func(any)) {
 	for s := range c03Serials {
 		for i := 0; i < uids; i++ {
 			for j := 0; j < uids; j++ {
-				yield(&c03Case{Kind: "ids", Serial: s, IUID: i, SUID: j})
+				for pm := 0; pm < 3; pm++ {
+					yield(&c03Case{Kind: "ids", Serial: s, IUID: i, SUID: j, ProfMod: pm})
+				}
 			}
 		}
 	}
@@ -207,8 +209,16 @@ func c03Exec(x *engine.Ctx, cc any) {
 		}
 		cfg.IssuerUID, cfg.SubjectUID = c03UIDs()[c.IUID], c03UIDs()[c.SUID]
 		d := &Dir{Certs: []*refcfg.CertCfg{cfg}}
+		switch c.ProfMod {
+		case 1: // a profile that contributes only an extension
+			d.Profiles = []*refcfg.ProfileCfg{{Path: "prof.yaml", Name: "p", Exts: []refcfg.Ext{{Kind: refcfg.KOCSP}}}}
+			cfg.Profile = "p"
+		case 2: // a profile that also constrains the subject
+			d.Profiles = []*refcfg.ProfileCfg{{Path: "prof.yaml", Name: "p", SubjAttrs: &refcfg.SubjectAttributes{Attributes: []refcfg.SubjAttr{{Attribute: "CN"}}}, Validity: &refcfg.Validity{Duration: "2y"}}}
+			cfg.Profile = "p"
+		}
 		g := Generate(d, func(w *simfs.World) { w.Put("ent.pem", FixtureKeyPEM("P-224-0")) }, drive.Default)
-		x.Nontrivial(fmt.Sprintf("ids %d %d %d", c.Serial, c.IUID, c.SUID))
+		x.Nontrivial(fmt.Sprintf("ids %d %d %d %d", c.Serial, c.IUID, c.SUID, c.ProfMod))
 		if !g.Res.OK() {
 			x.Violation("C03/run-failed ids", fmt.Sprintf("%v %s", g.Res.Err(), g.Res.Panic))
 			return
@@ -265,7 +275,7 @@ func init() {
 	register(&engine.Check{
 		ID:          "C03",
 		Level:       "exploration",
-		Rule:        "subject strings over 11 keys (9 short names, 2 dotted OIDs) x 7 values (ASCII, inner double space, punctuation, non-ASCII, 64 and 200 characters): every sequence of length 1..3 (4.6e5, with 4 separator spellings) through config.ParseRDNSequence vs. the documented grammar; every sequence of length 1..2 and every cyclic window of length 3..8 with rotating values through whole certificate generation without profile, with a profile listing the subject's attributes, and the same with allowOther (quick thins the profile variants of length-2 subjects to a third); 8 serials x 6 x 6 unique-id settings; 8 two-run forests for serial freshness. Oracle: one single-valued RDN per pair in reversed order, documented OID, text unchanged, UTF8String or (in repertoire) PrintableString, identical with and without profile; configured serial/unique ids bit for bit. non-trivial = distinct case that reached the comparison",
+		Rule:        "subject strings over 11 keys (9 short names, 2 dotted OIDs) x 7 values (ASCII, inner double space, punctuation, non-ASCII, 64 and 200 characters): every sequence of length 1..3 (4.6e5, with 4 separator spellings) through config.ParseRDNSequence vs. the documented grammar; every sequence of length 1..2 and every cyclic window of length 3..8 with rotating values through whole certificate generation without profile, with a profile listing the subject's attributes, and the same with allowOther (quick thins the profile variants of length-2 subjects to a third); 8 serials x 6 x 6 unique-id settings x {no profile, extension-only profile, subject-constraining profile}; 8 two-run forests for serial freshness. Oracle: one single-valued RDN per pair in reversed order, documented OID, text unchanged, UTF8String or (in repertoire) PrintableString, identical with and without profile; configured serial/unique ids bit for bit. non-trivial = distinct case that reached the comparison",
 		Bound:       map[string]string{"subject length": "parser 1..3 exhaustive, generation 1..2 exhaustive, 3..8 windows", "values": "7"},
 		Assumptions: []string{"values containing , = \\ or a leading # are outside the documented grammar that reaches the parser", "fresh-serial collisions have probability about 2^-150"},
 		Budget:      budgets(quickBudget, thoroughBudget),
